@@ -8,6 +8,7 @@ Emits into these formats from the cdd_python common IR format:
  - [Google's docstring format](https://google.github.io/styleguide/pyguide.html)
 """
 
+from copy import deepcopy
 from collections import OrderedDict
 from functools import partial
 
@@ -73,6 +74,8 @@ def docstring(
     :return: docstring
     :rtype: ```str```
     """
+    # work on a copy: the caller's interface description is input, not scratch space
+    intermediate_repr = deepcopy(intermediate_repr)
     # _sep = tab * indent_level
     params = "\n{maybe_nl}".format(
         maybe_nl="\n" if docstring_format == "rest" and purpose != "class" else ""
